@@ -19,11 +19,13 @@ META = {
         "multi-byte strings sized R+d around the response limit, which is patched down from the test side), exceptions of "
         "builtin, user-defined and every public SDK class (ExecutionError, InvocationError, CallbackError, ValidationError, "
         "StepInterruptedError, CallableRuntimeError, SerDesError, NonDeterministicExecutionError, InvalidStateError, "
-        "OrderedLockError, UserlandError, DurableExecutionsError) raised at top level / inside a child context / inside a "
+        "OrderedLockError, UserlandError, DurableExecutionsError; builtin/user exceptions optionally carrying foreign attributes such as "
+        ".data/.stack_trace/.type with non-string values) raised at top level / inside a child context / inside a "
         "step / inside a parallel branch, suspensions; faults: any error class at any backend call (incl. the call that "
         "records a large result, incl. responses the SDK cannot parse); events: well-formed, missing keys, wrong types, "
         "non-JSON / non-object input payloads. Oracle = independent classifier table: the wrapper returns a dict with "
-        "Status SUCCEEDED (+ Result that json.loads and fits the limit in bytes, no Error) | FAILED (+ Error object, or an "
+        "Status SUCCEEDED (+ Result that json.loads and fits the limit in bytes, no Error) | FAILED (+ JSON-serializable Error object "
+        "with only the four wire fields, strings / list of strings, or an "
         "accepted EXECUTION record on the large path) | PENDING (neither), or raises - and a raise is accepted only for a "
         "fault the table marks retriable, an InvocationError-family error raised by the handler at top level or in a child "
         "context, or a malformed payload; user exceptions and non-retriable SDK errors must give FAILED, suspension "
@@ -84,8 +86,21 @@ def wellformed(out, run, R):
                 return "FAILED without Error and without an accepted EXECUTION record"
         elif not isinstance(e, dict) or not (e.get("ErrorType") or e.get("ErrorMessage")):
             return f"Error object malformed: {e!r}"
-        elif len(json.dumps(out).encode("utf-8", "surrogatepass")) > R:
-            return f"FAILED response of {len(json.dumps(out))} bytes exceeds the response limit {R}"
+        else:
+            for k in ("ErrorType", "ErrorMessage", "ErrorData"):
+                if e.get(k) is not None and not isinstance(e[k], str):
+                    return f"Error.{k} is {type(e[k]).__name__}, the wire type is string: {e[k]!r}"[:300]
+            stt_ = e.get("StackTrace")
+            if stt_ is not None and not (isinstance(stt_, list) and all(isinstance(x, str) for x in stt_)):
+                return f"Error.StackTrace is not a list of strings: {stt_!r}"[:300]
+            if set(e) - {"ErrorType", "ErrorMessage", "ErrorData", "StackTrace"}:
+                return f"Error object has unexpected keys {sorted(set(e) - {'ErrorType', 'ErrorMessage', 'ErrorData', 'StackTrace'})}"
+            try:
+                ser = json.dumps(out)
+            except (TypeError, ValueError) as ex:
+                return f"FAILED response is not JSON-serializable: {ex!r}"
+            if len(ser.encode("utf-8", "surrogatepass")) > R:
+                return f"FAILED response of {len(ser)} bytes exceeds the response limit {R}"
     return None
 
 
@@ -164,6 +179,12 @@ def cases(draw):
         cls = draw(st.sampled_from(SDK_EXC + BUILTIN))
         where = draw(st.sampled_from(["top", "child", "step", "branch"]))
         exc = {"cls": cls, "msg": draw(st.sampled_from(["boom", "", "x" * 50]))}
+        if cls in BUILTIN and draw(st.integers(0, 2)) == 0:
+            attrs = draw(st.dictionaries(st.sampled_from(["data", "stack_trace", "error_type", "type", "message", "error_data", "errno"]),
+                                         st.sampled_from([to_tagged({"field": ["bad"]}), to_tagged(b"\x00raw"), to_tagged(7), to_tagged(["a", "b"]), to_tagged("text"), to_tagged(None)]),
+                                         min_size=1, max_size=3))
+            exc["attrs"] = attrs
+            info["attrs"] = sorted(attrs)
         info.update({"raise": cls, "where": where})
         if where == "top":
             body = [draw(step)] if draw(st.booleans()) else []
